@@ -1755,3 +1755,15 @@ Proof.
       inversion Hu as [|? ? Ho Hu']; subst. apply IH; [exact Hu'|]. now apply ghost_step_universe. }
     apply G; [exact Hh|]. intros p H. discriminate H.
 Qed.
+
+(* adopted (shared-memory) topologies: the mutating calls are refused and change nothing;
+   the adopted copy satisfies the same invariant *)
+Lemma guarded_step_adopted env st o :
+  mutating o = true -> guarded_step true env st o = (Fine st RC_EPERM, true).
+Proof. intros H. unfold guarded_step. rewrite H. reflexivity. Qed.
+
+Lemma guarded_step_not_adopted env st o : guarded_step false env st o = (step env st o, false).
+Proof. reflexivity. Qed.
+
+Lemma adopt_state_inv tf regs st : Inv tf regs st -> Inv tf regs (adopt_state st).
+Proof. apply dup_state_inv. Qed.
